@@ -294,6 +294,25 @@ def points(tier: str) -> List[dict]:
         ws = [next(g) % 8 for _ in range(n)]  # null weights and volumes are legal
         vs = [next(g) % 8 for _ in range(n)]
         P.append({"spec": {"model": "knapsack", "weights": ws, "volumes": vs, "capacity": next(g) % (sum(vs) + 2), "op": "opt", "brute": True}, "optimum": "brute"})
+    for i in range(6 if not th else 18):
+        # instance data on the boundaries of the model's comparisons: an item that fills the knapsack exactly and is
+        # worth more than everything else together (or not), an item one unit too big, all items together fitting exactly
+        n = 3 + next(g) % 3
+        ws = [1 + next(g) % 9 for _ in range(n)]
+        vs = [1 + next(g) % 6 for _ in range(n)]
+        j = next(g) % n
+        shape = i % 3
+        if shape == 0:
+            cap = max(vs) + 1 + next(g) % 4
+            vs[j] = cap
+            ws[j] = sum(ws) + 1 if next(g) % 3 else ws[j]
+        elif shape == 1:
+            cap = max(vs) + next(g) % 3
+            vs[j] = cap + 1
+            ws[j] = sum(ws) + 1
+        else:
+            cap = sum(vs)
+        P.append({"spec": {"model": "knapsack", "weights": ws, "volumes": vs, "capacity": cap, "op": "opt", "brute": True}, "optimum": "brute"})
     P = [p for p in P if p is not None]
     P.append({"spec": {"model": "sudoku", "givens": SUDOKU_1}, "count": 1})
     P.append({"spec": {"model": "sudoku", "givens": SUDOKU_2}, "count": 1})
